@@ -122,6 +122,25 @@ b = B()
 b.v
 b.w
 x, y = pick(1)
+def joined(c):
+    try:
+        if c:
+            r = 1
+        else:
+            r = 2
+    except ValueError:
+        r = 3
+    except KeyError:
+        r = 4
+    except OSError:
+        r = 5
+    while c:
+        if c > 1:
+            r = 6
+        elif c > 2:
+            r = 7
+        c -= 1
+    return r
 '''
 
 
@@ -134,7 +153,8 @@ def fixed_requests(tmp):
     reqs.append(({'kind': 'location', 'src': MULTI_ASSIGN, 'pos': [27, 3], 'filename': fn, 'roots': [tmp]}, True, 4))
     reqs.append(({'kind': 'location', 'src': MULTI_ASSIGN, 'pos': [28, 3], 'filename': fn, 'roots': [tmp]}, True, 2))
     reqs.append(({'kind': 'location', 'src': MULTI_ASSIGN, 'pos': [26, 14], 'filename': fn, 'roots': [tmp]}, True, 3))
-    reqs.append(({'kind': 'assist', 'src': MULTI_ASSIGN + 'b.', 'pos': [30, 2], 'filename': fn, 'roots': [tmp]}, True, 3))
+    reqs.append(({'kind': 'assist', 'src': MULTI_ASSIGN + 'b.', 'pos': [48, 2], 'filename': fn, 'roots': [tmp]}, True, 3))
+    reqs.append(({'kind': 'location', 'src': MULTI_ASSIGN, 'pos': [47, 12], 'filename': fn, 'roots': [tmp]}, True, 7))
     reqs.append(({'kind': 'lint', 'src': MULTI_ASSIGN, 'filename': fn, 'roots': [tmp]}, False, 0))
     for name, src in c04.MODS.items():
         with open(os.path.join(tmp, name + '.py'), 'w') as f:
